@@ -259,8 +259,21 @@ def run_concurrent(case: dict) -> Result:
     return res
 
 
+_SHRUNK: dict[tuple, int] = {}  # per worker process: how often each mechanism key has been shrunk already
+
+
 def shrink_ops(case: dict, still_fails) -> dict:
-    """ddmin over the flattened (client, op) list; keeps think times."""
+    """ddmin over the flattened (client, op) list; keeps think times.
+
+    Only the first two cases per mechanism key are shrunk in one worker: on a tree with a common defect every
+    fourth history fails and shrinking them all would dominate the quick tier.
+    """
+    run = run_sequential if len(case["clients"]) == 1 else run_concurrent
+    keys = {v.key() for v in run(case).violations}
+    if keys and all(_SHRUNK.get(k, 0) >= 2 for k in keys):
+        return case
+    for k in keys:
+        _SHRUNK[k] = _SHRUNK.get(k, 0) + 1
     flat = [(ci, oi) for ci, cl in enumerate(case["clients"]) for oi in range(len(cl["ops"]))]
 
     def build(keep):
@@ -389,7 +402,7 @@ FAMILIES = {
 }
 # cases cost 1-5 ms but a fresh worker pays ~3 s to import the library: few, large shards
 for _f in FAMILIES.values():
-    _f.shard_size = 400
+    _f.shard_size = 150
 
 BUDGET = {
     "quick": {"lsm_size_tiered": 300, "lsm_leveled": 300, "lsm_fifo": 200, "btree": 250, "kv": 150, "sequential": 300, "txn": 600},
